@@ -73,6 +73,7 @@ def table : List Entry := [
   ⟨"dkg.DistKeyGenerator.ProcessDeal|mapzero|d.verifiers[dd.Index].UnsafeSetResponseDKG", "", .safe "entry stored a few lines above; its aggregator exists because ProcessEncryptedDeal returned no error"⟩,
   ⟨"dkg.DistKeyGenerator.ProcessResponse|deref|resp.Response", "or:resp == nil", .flag "respNil"⟩,
   ⟨"dkg.DistKeyGenerator.ProcessResponse|mapzero|d.verifiers[resp.Index]", "ok", .flag "respVerOk"⟩,
+  ⟨"dkg.askMembers|close|close(out)", "made:out", .safe "closed on the one exit that does not hand the channel to pdkg.Loop (dffdff3); channel life-cycle is C14's"⟩,
   ⟨"dkg.decodePubKey|index|pubKeyCoor[i]", "for:i < 4", .safe "[4]*big.Int indexed by i < 4"⟩,
   ⟨"dkg.decodePubKey|slice|pubKeyMar[32*i+1 : 32*i+33]", "after:len(pubKeyMar) < 32*4+1; for:i < 4", .flag "pubKeyLen"⟩,
   ⟨"dkg.exchangePub|close|close(errc)", "defer; made:errc", .guarded⟩,
@@ -86,6 +87,9 @@ def table : List Entry := [
   ⟨"dkg.exchangePub|typeassert|resp.(*PublicKey)", "ok", .flag "xpubCastSelf"⟩,
   ⟨"dkg.exchangePub|typeassert|resp.(*PublicKey)#2", "ok", .flag "xpubCastPeer"⟩,
   ⟨"dkg.findPub|index|list[i]", "after:i >= uint32(len(list))", .flag "findPubDkg"⟩,
+  ⟨"dkg.genDealsAndSend|close|close(errc)", "defer; made:errc", .guarded⟩,
+  ⟨"dkg.genDealsAndSend|close|close(out)", "defer; made:out", .guarded⟩,
+  ⟨"dkg.genDealsAndSend|index|groupIds[i]", "", .safe "i ranges over the keys of dkg.Deals(): participant indices < len(pubPoints) = numOfPubkeys = len(groupIds) (Grouping passes the same list to genDistKeyGenerator and here)"⟩,
   ⟨"dkg.genDistKeyGenerator|close|close(errc)", "defer; made:errc", .guarded⟩,
   ⟨"dkg.genDistKeyGenerator|close|close(out)", "defer; made:out", .guarded⟩,
   ⟨"dkg.genDistKeyGenerator|deref|other.Equal", "and:other != nil && uint32(k) != pubkey.Index", .guarded⟩,
@@ -107,6 +111,9 @@ def table : List Entry := [
   ⟨"dkg.genGroup|close|close(out)", "defer; made:out", .guarded⟩,
   ⟨"dkg.genGroup|slice|dataReturn[1:]", "", .safe "[5]*big.Int"⟩,
   ⟨"dkg.genGroup|slice|pubKeyCoor[:]", "", .safe "[4]*big.Int"⟩,
+  ⟨"dkg.genPub|close|close(errc)", "defer; made:errc", .guarded⟩,
+  ⟨"dkg.genPub|close|close(out)", "defer; made:out", .guarded⟩,
+  ⟨"dkg.genPub|close|close(secrc)", "defer; made:secrc", .guarded⟩,
   ⟨"dkg.getAndProcessDeals|close|close(dkgOut)", "defer; made:dkgOut", .guarded⟩,
   ⟨"dkg.getAndProcessDeals|close|close(errc)", "defer; made:errc", .guarded⟩,
   ⟨"dkg.getAndProcessDeals|close|close(out)", "defer; made:out", .guarded⟩,
@@ -137,14 +144,30 @@ def table : List Entry := [
   ⟨"dkg.handleRequest|mapzero|sessionReq[req.sessionID].ctx", "", .safe "entry written by the first statement of the function"⟩,
   ⟨"dkg.handleRequest|mapzero|sessionReq[req.sessionID].reply", "", .safe "entry written by the first statement of the function"⟩,
   ⟨"dkg.initDistKeyGenerator|ifaceslot|p.Equal(pub)", "", .model "newDkg: no empty participant slot after n distinct in-range indices (genDkg_total)"⟩,
+  ⟨"dkg.pdkg.GetGroupIDs|typeassert|g.(*group)", "", .safe "d.groups only ever stores *group values (Grouping is its only writer)"⟩,
+  ⟨"dkg.pdkg.GetGroupPublicPoly|typeassert|g.(*group)", "", .safe "d.groups only ever stores *group values (Grouping is its only writer)"⟩,
+  ⟨"dkg.pdkg.GetShareSecurity|deref|dks.Share", "in:dks != nil", .flag "secNil"⟩,
+  ⟨"dkg.pdkg.GetShareSecurity|typeassert|g.(*group)", "", .safe "d.groups only ever stores *group values (Grouping is its only writer)"⟩,
+  ⟨"dkg.pdkg.Grouping|index|selfPubcs[0]", "", .safe "fanOut is called with size 2"⟩,
+  ⟨"dkg.pdkg.Grouping|index|selfPubcs[1]", "", .safe "fanOut is called with size 2"⟩,
   ⟨"dkg.pdkg.Loop|close|close(req.reply)", "", .model "expire (sessStep .expire): the sweep closes the reply channel of a registration that is in the map and deletes it in the same step; registrations in the map have open, pairwise distinct channels (SessInv), so never a second close (session_layer_total)"⟩,
   ⟨"dkg.pdkg.Loop|typeassert|req.(request)", "ok", .guarded⟩,
+  ⟨"dkg.sendToMembers|close|close(errc)", "defer; made:errc", .guarded⟩,
+  ⟨"dkg.sendToMembers|typeassert|msg.(proto.Message)", "ok", .guarded⟩,
   ⟨"dosnode.DosNode.handleCR|callpanics|rand.Int(rand.Reader, randSeed)", "fix:randSeed.Cmp(big.NewInt(1)) == -1", .flag "crRand"⟩,
   ⟨"dosnode.DosNode.handleCR|deref|*hash", "", .safe "byte32 of the 32-byte Keccak digest is non-nil (byte32Len)"⟩,
   ⟨"dosnode.DosNode.handleCR|deref|cr.Cid", "", .safe "event structs are built by the contract binding in onchain: non-nil"⟩,
-  ⟨"dosnode.DosNode.handleCR|deref|randSeed.Cmp(big.NewInt(1))", "", .safe "randSeed is the package constant or an ABI-decoded *big.Int: non-nil"⟩,
-  ⟨"dosnode.DosNode.handleQuery|deref|useSeed.Bytes()", "", .safe "only in case TrafficUserRandom, where UserSeed is an ABI-decoded *big.Int: non-nil"⟩,
-  ⟨"dosnode.DosNode.handleQuery|deref|useSeed.Bytes()#2", "", .safe "only in case TrafficUserRandom, where UserSeed is an ABI-decoded *big.Int: non-nil"⟩,
+  ⟨"dosnode.DosNode.handleCR|deref|cr.CommitDuration.Uint64", "", .model "payloadStep / handleQueryPre / handleCR: nil event field — unreachable for translated events: every payload field is a verbatim copy of a field the ABI decoder filled (event_flow_matches, chain_events_total); the branch itself is confirmed against the code by the nil-field `chain` cases"⟩,
+  ⟨"dosnode.DosNode.handleCR|deref|cr.RevealDuration.Uint64", "", .model "payloadStep / handleQueryPre / handleCR: nil event field — unreachable for translated events: every payload field is a verbatim copy of a field the ABI decoder filled (event_flow_matches, chain_events_total); the branch itself is confirmed against the code by the nil-field `chain` cases"⟩,
+  ⟨"dosnode.DosNode.handleCR|deref|cr.StartBlock.Uint64", "", .model "payloadStep / handleQueryPre / handleCR: nil event field — unreachable for translated events: every payload field is a verbatim copy of a field the ABI decoder filled (event_flow_matches, chain_events_total); the branch itself is confirmed against the code by the nil-field `chain` cases"⟩,
+  ⟨"dosnode.DosNode.handleCR|deref|randSeed.Cmp", "", .model "payloadStep / handleQueryPre / handleCR: nil event field — unreachable for translated events: every payload field is a verbatim copy of a field the ABI decoder filled (event_flow_matches, chain_events_total); the branch itself is confirmed against the code by the nil-field `chain` cases"⟩,
+  ⟨"dosnode.DosNode.handleCR|deref|randSeed.Cmp(big.NewInt(1))", "", .model "payloadStep / handleQueryPre / handleCR: nil event field — unreachable for translated events: every payload field is a verbatim copy of a field the ABI decoder filled (event_flow_matches, chain_events_total); the branch itself is confirmed against the code by the nil-field `chain` cases"⟩,
+  ⟨"dosnode.DosNode.handleGroupDissolve|deref|gid.Cmp(big.NewInt(1))", "", .safe "FirstPendingGroupId returns err == nil only with the result of a comma-ok assertion to *big.Int on the ABI-decoded getter value; the err != nil return precedes"⟩,
+  ⟨"dosnode.DosNode.handleQuery|deref|lastRand.Bytes", "", .model "payloadStep / handleQueryPre / handleCR: nil event field — unreachable for translated events: every payload field is a verbatim copy of a field the ABI decoder filled (event_flow_matches, chain_events_total); the branch itself is confirmed against the code by the nil-field `chain` cases"⟩,
+  ⟨"dosnode.DosNode.handleQuery|deref|requestID.Bytes", "", .model "payloadStep / handleQueryPre / handleCR: nil event field — unreachable for translated events: every payload field is a verbatim copy of a field the ABI decoder filled (event_flow_matches, chain_events_total); the branch itself is confirmed against the code by the nil-field `chain` cases"⟩,
+  ⟨"dosnode.DosNode.handleQuery|deref|useSeed.Bytes", "", .model "payloadStep / handleQueryPre / handleCR: nil event field — unreachable for translated events: every payload field is a verbatim copy of a field the ABI decoder filled (event_flow_matches, chain_events_total); the branch itself is confirmed against the code by the nil-field `chain` cases"⟩,
+  ⟨"dosnode.DosNode.handleQuery|deref|useSeed.Bytes()", "", .model "payloadStep / handleQueryPre / handleCR: nil event field — unreachable for translated events: every payload field is a verbatim copy of a field the ABI decoder filled (event_flow_matches, chain_events_total); the branch itself is confirmed against the code by the nil-field `chain` cases"⟩,
+  ⟨"dosnode.DosNode.handleQuery|deref|useSeed.Bytes()#2", "", .model "payloadStep / handleQueryPre / handleCR: nil event field — unreachable for translated events: every payload field is a verbatim copy of a field the ABI decoder filled (event_flow_matches, chain_events_total); the branch itself is confirmed against the code by the nil-field `chain` cases"⟩,
   ⟨"dosnode.DosNode.handleQuery|index|submitterc[0]", "", .safe "choseSubmitter is called with outCount = 2"⟩,
   ⟨"dosnode.DosNode.handleQuery|index|submitterc[0]#2", "", .safe "choseSubmitter is called with outCount = 2"⟩,
   ⟨"dosnode.DosNode.handleQuery|index|submitterc[0]#3", "", .safe "choseSubmitter is called with outCount = 2"⟩,
@@ -152,6 +175,11 @@ def table : List Entry := [
   ⟨"dosnode.DosNode.handleQuery|slice|nHash[:]", "", .safe "[32]byte array"⟩,
   ⟨"dosnode.DosNode.handleQuery|slice|nHash[:]#2", "", .safe "[32]byte array"⟩,
   ⟨"dosnode.DosNode.handleQuery|slice|nHash[:]#3", "", .safe "[32]byte array"⟩,
+  ⟨"dosnode.DosNode.onchainLoop|deref|balance.Cmp(big.NewFloat(0.1))", "", .safe "Balance returns err == nil only with the *big.Float GetBalance computed; the err != nil branch continues"⟩,
+  ⟨"dosnode.DosNode.onchainLoop|deref|content.CommitDuration.String", "", .safe "(*big.Int).String is nil-safe (prints <nil>)"⟩,
+  ⟨"dosnode.DosNode.onchainLoop|deref|content.RevealDuration.String", "", .safe "(*big.Int).String is nil-safe (prints <nil>)"⟩,
+  ⟨"dosnode.DosNode.onchainLoop|deref|content.StartBlock.String", "", .safe "(*big.Int).String is nil-safe (prints <nil>)"⟩,
+  ⟨"dosnode.DosNode.onchainLoop|deref|content.StartBlock.String#2", "", .safe "(*big.Int).String is nil-safe (prints <nil>)"⟩,
   ⟨"dosnode.DosNode.onchainLoop|mapwrite|inactiveNodes[event.NodeID]", "made:inactiveNodes", .guarded⟩,
   ⟨"dosnode.DosNode.onchainLoop|mapwrite|inactiveNodes[event.NodeID]#2", "made:inactiveNodes", .guarded⟩,
   ⟨"dosnode.DosNode.onchainLoop|mapwrite|inactiveNodes[nodeID]", "made:inactiveNodes", .guarded⟩,
@@ -169,7 +197,8 @@ def table : List Entry := [
   ⟨"dosnode.byte32|index|s[0]", "in:len(a) <= len(s)", .flag "byte32Len"⟩,
   ⟨"dosnode.choseSubmitter|close|close(errc)", "defer; made:errc", .guarded⟩,
   ⟨"dosnode.choseSubmitter|close|close(out)", "", .safe "out ranges over the channels this function made, each closed once after the sends"⟩,
-  ⟨"dosnode.choseSubmitter|deref|lastSysRand.Uint64()", "", .safe "ABI-decoded *big.Int: non-nil"⟩,
+  ⟨"dosnode.choseSubmitter|deref|lastSysRand.Uint64", "", .safe "reached after handleQuery called lastRand.Bytes() on the same pointer (handleQueryPre: that site fails first)"⟩,
+  ⟨"dosnode.choseSubmitter|deref|lastSysRand.Uint64()", "", .safe "reached after handleQuery called lastRand.Bytes() on the same pointer (handleQueryPre: that site fails first)"⟩,
   ⟨"dosnode.choseSubmitter|div|lastSysRand.Uint64() % uint64(len(ids))", "", .cross "dosnode.DosNode.groupInfo" "len(ids) == 0 || pubPoly == nil || sec == nil" "groupInfoIds"⟩,
   ⟨"dosnode.choseSubmitter|index|ids[submitter]", "", .safe "submitter = x % len(ids) < len(ids)"⟩,
   ⟨"dosnode.dispatchSign|close|close(out)", "made:out", .safe "channel life-cycle of dispatchSign and the collector is C14\'s (F15, repaired in aee7ef3): closed on exactly one of its exits"⟩,
@@ -182,6 +211,10 @@ def table : List Entry := [
   ⟨"dosnode.genQueryResult|close|close(out)", "defer; made:out", .guarded⟩,
   ⟨"dosnode.genSysRandom|close|close(out)", "defer; made:out", .guarded⟩,
   ⟨"dosnode.genUserRandom|close|close(out)", "defer; made:out", .guarded⟩,
+  ⟨"dosnode.getBootIps|deref|client.Do(req)", "after:err != nil", .flag "bootReq"⟩,
+  ⟨"dosnode.getBootIps|index|nodeIPs[i]", "for:i < len(strlist)-1", .guarded⟩,
+  ⟨"dosnode.getBootIps|index|strlist[i]", "for:i < len(strlist)-1", .guarded⟩,
+  ⟨"dosnode.getBootIps|make|make([]string, len(strlist)-1)", "", .safe "strings.Split returns at least one element: the length is >= 0"⟩,
   ⟨"dosnode.padOrTrim|make|make([]byte, size)", "after:l == size; after:l > size", .safe "size is the constant randNumberSize at the only call site, and l < size here"⟩,
   ⟨"dosnode.padOrTrim|slice|bb[l-size:]", "after:l == size; in:l > size", .safe "l > size"⟩,
   ⟨"dosnode.padOrTrim|slice|tmp[size-l:]", "after:l == size; after:l > size", .safe "l < size"⟩,
@@ -204,6 +237,53 @@ def table : List Entry := [
   ⟨"dosnode.recoverSign|deref|sign.ToBigInt()", "after:sign == nil || sign.Signature == nil || sign.Content == nil", .flag "rsNil"⟩,
   ⟨"dosnode.recoverSign|make|make([]byte, t)", "after:sign == nil || sign.Signature == nil || sign.Content == nil; after:t < 0", .flag "rsMake"⟩,
   ⟨"dosnode.reportQueryResult|close|close(errc)", "defer; made:errc", .guarded⟩,
+  ⟨"dosnode.unique|mapwrite|keys[entry]", "made:keys", .guarded⟩,
+  ⟨"onchain.crTable[SubscribeCommitrevealLogStartCommitreveal]|close|close(errc)", "defer; made:errc", .guarded⟩,
+  ⟨"onchain.crTable[SubscribeCommitrevealLogStartCommitreveal]|close|close(out)", "defer; made:out", .guarded⟩,
+  ⟨"onchain.crTable[SubscribeCommitrevealLogStartCommitreveal]|close|close(transitChan)", "defer; made:transitChan", .guarded⟩,
+  ⟨"onchain.ethAdaptor.DisconnectWs|index|e.wsCancels[idx]", "", .model "chainStep .errv: idx is the Idx of an *OnchainError a table entry built with getWsIndex(ctx) of the websocket context Connect appended at that position together with its cancel function (same length); errors are drained before Connect resets the slices (chain_events_total: idx < nWs)"⟩,
+  ⟨"onchain.ethAdaptor.DisconnectWs|index|e.wsCancels[idx]#2", "in:e.wsCancels[idx] != nil", .safe "same index as the line above"⟩,
+  ⟨"onchain.ethAdaptor.SubscribeEvent|index|crTable[subscribeType]", "in:subscribeType >= SubscribeCommitrevealLogStartCommitreveal", .safe "subscribeType comes from onchainLoop's literal list; every element has a table entry (event_flow_matches: flowSubscribed)"⟩,
+  ⟨"onchain.ethAdaptor.SubscribeEvent|index|e.wsCrs[i]", "for:i < len(e.wsCrs)", .guarded⟩,
+  ⟨"onchain.ethAdaptor.SubscribeEvent|index|e.wsCrs[i]#2", "for:i < len(e.wsCrs); after:e.wsCrs[i] == nil || e.wsCtxes[i] == nil", .guarded⟩,
+  ⟨"onchain.ethAdaptor.SubscribeEvent|index|e.wsCtxes[i]", "for:i < len(e.wsCrs); or:e.wsCrs[i] == nil", .guarded⟩,
+  ⟨"onchain.ethAdaptor.SubscribeEvent|index|e.wsCtxes[i]#2", "for:i < len(e.wsCrs); after:e.wsCrs[i] == nil || e.wsCtxes[i] == nil", .guarded⟩,
+  ⟨"onchain.ethAdaptor.SubscribeEvent|index|e.wsCtxes[i]#3", "for:i < len(e.wsCrs); after:e.wsCrs[i] == nil || e.wsCtxes[i] == nil", .guarded⟩,
+  ⟨"onchain.ethAdaptor.SubscribeEvent|index|e.wsCtxes[i]#4", "for:i < len(e.wsProxies); or:e.wsProxies[i] == nil", .guarded⟩,
+  ⟨"onchain.ethAdaptor.SubscribeEvent|index|e.wsCtxes[i]#5", "for:i < len(e.wsProxies); after:e.wsProxies[i] == nil || e.wsCtxes[i] == nil", .guarded⟩,
+  ⟨"onchain.ethAdaptor.SubscribeEvent|index|e.wsCtxes[i]#6", "for:i < len(e.wsProxies); after:e.wsProxies[i] == nil || e.wsCtxes[i] == nil", .guarded⟩,
+  ⟨"onchain.ethAdaptor.SubscribeEvent|index|e.wsProxies[i]", "for:i < len(e.wsProxies)", .guarded⟩,
+  ⟨"onchain.ethAdaptor.SubscribeEvent|index|e.wsProxies[i]#2", "for:i < len(e.wsProxies); after:e.wsProxies[i] == nil || e.wsCtxes[i] == nil", .guarded⟩,
+  ⟨"onchain.ethAdaptor.SubscribeEvent|index|proxyTable[subscribeType]", "else:subscribeType >= SubscribeCommitrevealLogStartCommitreveal", .safe "subscribeType comes from onchainLoop's literal list; every element has a table entry (event_flow_matches: flowSubscribed)"⟩,
+  ⟨"onchain.firstEvent|close|close(out)", "defer; made:out", .guarded⟩,
+  ⟨"onchain.firstEvent|mapwrite|visited[identity]", "made:visited", .guarded⟩,
+  ⟨"onchain.firstEvent|slice|content.Raw.TxHash[:]", "", .safe "[32]byte array"⟩,
+  ⟨"onchain.firstEvent|slice|logIndex[:]", "", .safe "[8]byte array"⟩,
+  ⟨"onchain.firstEvent|slice|logIndex[:]#2", "", .safe "[8]byte array"⟩,
+  ⟨"onchain.firstEvent|slice|nHash[:]", "", .safe "[32]byte array"⟩,
+  ⟨"onchain.firstEvent|typeassert|event.(*LogCommon)", "ok", .flag "feCast"⟩,
+  ⟨"onchain.getIndex|typeassert|v.(int)", "ok", .guarded⟩,
+  ⟨"onchain.getWsIndex|typeassert|v.(int)", "ok", .guarded⟩,
+  ⟨"onchain.mergeError|close|close(out)", "made:out", .safe "closed once, by the goroutine that waits for all forwarders (channel plumbing, C14)"⟩,
+  ⟨"onchain.merge|close|close(out)", "made:out", .safe "closed once, by the goroutine that waits for all forwarders (channel plumbing, C14)"⟩,
+  ⟨"onchain.proxyTable[SubscribeLogGroupDissolve]|close|close(errc)", "defer; made:errc", .guarded⟩,
+  ⟨"onchain.proxyTable[SubscribeLogGroupDissolve]|close|close(out)", "defer; made:out", .guarded⟩,
+  ⟨"onchain.proxyTable[SubscribeLogGroupDissolve]|close|close(transitChan)", "defer; made:transitChan", .guarded⟩,
+  ⟨"onchain.proxyTable[SubscribeLogGrouping]|close|close(errc)", "defer; made:errc", .guarded⟩,
+  ⟨"onchain.proxyTable[SubscribeLogGrouping]|close|close(out)", "defer; made:out", .guarded⟩,
+  ⟨"onchain.proxyTable[SubscribeLogGrouping]|close|close(transitChan)", "defer; made:transitChan", .guarded⟩,
+  ⟨"onchain.proxyTable[SubscribeLogPublicKeyAccepted]|close|close(errc)", "defer; made:errc", .guarded⟩,
+  ⟨"onchain.proxyTable[SubscribeLogPublicKeyAccepted]|close|close(out)", "defer; made:out", .guarded⟩,
+  ⟨"onchain.proxyTable[SubscribeLogPublicKeyAccepted]|close|close(transitChan)", "defer; made:transitChan", .guarded⟩,
+  ⟨"onchain.proxyTable[SubscribeLogRequestUserRandom]|close|close(errc)", "defer; made:errc", .guarded⟩,
+  ⟨"onchain.proxyTable[SubscribeLogRequestUserRandom]|close|close(out)", "defer; made:out", .guarded⟩,
+  ⟨"onchain.proxyTable[SubscribeLogRequestUserRandom]|close|close(transitChan)", "defer; made:transitChan", .guarded⟩,
+  ⟨"onchain.proxyTable[SubscribeLogUpdateRandom]|close|close(errc)", "defer; made:errc", .guarded⟩,
+  ⟨"onchain.proxyTable[SubscribeLogUpdateRandom]|close|close(out)", "defer; made:out", .guarded⟩,
+  ⟨"onchain.proxyTable[SubscribeLogUpdateRandom]|close|close(transitChan)", "defer; made:transitChan", .guarded⟩,
+  ⟨"onchain.proxyTable[SubscribeLogUrl]|close|close(errc)", "defer; made:errc", .guarded⟩,
+  ⟨"onchain.proxyTable[SubscribeLogUrl]|close|close(out)", "defer; made:out", .guarded⟩,
+  ⟨"onchain.proxyTable[SubscribeLogUrl]|close|close(transitChan)", "defer; made:transitChan", .guarded⟩,
   ⟨"p2p.client.decodePipe|close|close(receivedMsg)", "defer; made:receivedMsg", .guarded⟩,
   ⟨"p2p.client.decodePipe|close|close(replyMsg)", "defer; made:replyMsg", .guarded⟩,
   ⟨"p2p.client.decodePipe|deref|pa.GetAnything().Value", "", .cross "p2p.decodeBytes" "pa.GetAnything() == nil" "anyNil"⟩,
@@ -335,6 +415,42 @@ def flagOn (name : String) : Bool :=
   let xs := extraConds.filter (fun x => x.1 == name)
   (!es.isEmpty || !xs.isEmpty) && es.all entryHolds && xs.all (fun x => hasCond x.2.1 x.2.2)
 
+/-! ### the way of a chain event (regenerated facts `eventFlow`, `loopSubs`, `loopCases`) -/
+
+/-- what onchainLoop subscribes to, the table entry that serves it, the payload it builds: every field a
+verbatim copy of the binding's field (`NodeId`: the addresses' bytes, collected in `participants`) -/
+def expectedFlow : List (String × String × String × List (String × String)) := [
+  ("SubscribeLogGrouping", "proxyTable", "LogGrouping", [("GroupId", "i.GroupId"), ("NodeId", "participants")]),
+  ("SubscribeLogGroupDissolve", "proxyTable", "LogGroupDissolve", [("GroupId", "i.GroupId")]),
+  ("SubscribeLogUrl", "proxyTable", "LogUrl", [("QueryId", "i.QueryId"), ("Timeout", "i.Timeout"), ("DataSource", "i.DataSource"), ("Selector", "i.Selector"), ("Randomness", "i.Randomness"), ("DispatchedGroupId", "i.DispatchedGroupId")]),
+  ("SubscribeLogUpdateRandom", "proxyTable", "LogUpdateRandom", [("LastRandomness", "i.LastRandomness"), ("DispatchedGroupId", "i.DispatchedGroupId")]),
+  ("SubscribeLogRequestUserRandom", "proxyTable", "LogRequestUserRandom", [("RequestId", "i.RequestId"), ("LastSystemRandomness", "i.LastSystemRandomness"), ("UserSeed", "i.UserSeed"), ("DispatchedGroupId", "i.DispatchedGroupId")]),
+  ("SubscribeLogPublicKeyAccepted", "proxyTable", "LogPublicKeyAccepted", [("GroupId", "i.GroupId"), ("WorkingGroupSize", "i.NumWorkingGroups")]),
+  ("SubscribeCommitrevealLogStartCommitreveal", "crTable", "LogStartCommitReveal", [("Cid", "i.Cid"), ("StartBlock", "i.StartBlock"), ("CommitDuration", "i.CommitDuration"), ("RevealDuration", "i.RevealDuration"), ("RevealThreshold", "i.RevealThreshold")])
+]
+
+/-- the wrapper every entry builds: the payload under `log`, the binding's Removed flag -/
+def expectedCommon : List (String × String) :=
+  [("Tx", "i.Raw.TxHash.Hex()"), ("BlockN", "i.Raw.BlockNumber"), ("Removed", "i.Raw.Removed"), ("Raw", "i.Raw"), ("log", "l")]
+
+/-- the flow of one subscription as found in the source -/
+def flowOf (sub table : String) : Option (String × List (String × String) × List (String × String) × List String) :=
+  (Gen.PanicSites.eventFlow.find? (fun e => e.1 == table ++ "[" ++ sub ++ "]")).map (·.2)
+
+/-- subscriptions = expected; every one has its entry with exactly the expected payload and wrapper and sends
+only `&OnchainError` values; the loop has a case for every payload type and nothing else -/
+def flowEntryOK (e : String × String × String × List (String × String)) : Bool :=
+  match flowOf e.1 e.2.1 with
+  | some (payload, fields, common, errs) =>
+    payload == e.2.2.1 && fields == e.2.2.2 && common == expectedCommon && errs.all (· == "&OnchainError")
+  | none => false
+
+def flowOK : Bool :=
+  Gen.PanicSites.loopSubs == expectedFlow.map (·.1) &&
+  expectedFlow.all flowEntryOK &&
+  Gen.PanicSites.loopCases.length == expectedFlow.length &&
+  expectedFlow.all (fun e => Gen.PanicSites.loopCases.contains ("*onchain." ++ e.2.2.1))
+
 /-- the clean-up a path of the session layer performs, from the regenerated facts: `sessionMap` is the
 buffer map and `sessionReq` the registration map in all three functions -/
 def cleanOf (path : String) : Clean :=
@@ -355,7 +471,7 @@ def Cfg.current : Cfg :=
     nonceLen := flagOn "nonceLen", secShareNil := flagOn "secShareNil", shareVNil := flagOn "shareVNil",
     findPubVss := flagOn "findPubVss", aggNil := flagOn "aggNil", toBigLen := flagOn "toBigLen",
     qloopOk := flagOn "qloopOk", qloopCast := flagOn "qloopCast", rsNil := flagOn "rsNil", rsMake := flagOn "rsMake",
-    groupInfoIds := flagOn "groupInfoIds", byte32Len := flagOn "byte32Len", crRand := flagOn "crRand",
+    groupInfoIds := flagOn "groupInfoIds", byte32Len := flagOn "byte32Len", crRand := flagOn "crRand", bootReq := flagOn "bootReq", secNil := flagOn "secNil", feCast := flagOn "feCast", evFlow := flowOK,
     sigIdxLen := flagOn "sigIdxLen", recoverDedup := flagOn "recoverDedup", anyNil := flagOn "anyNil",
     ridCast := flagOn "ridCast", ridLen := flagOn "ridLen", readSize := flagOn "readSize", mdNil := flagOn "mdNil", dispReplyNil := flagOn "dispReplyNil", callRemoveNil := flagOn "callRemoveNil", callIdMatch := flagOn "callIdMatch",
     listenName := flagOn "listenName", listenCast := flagOn "listenCast", lookupName := flagOn "lookupName" }
